@@ -383,6 +383,9 @@ pub mod sync {
             Mutex(::std::sync::Mutex::new(t))
         }
         pub fn lock(&self) -> LockResult<MutexGuard<'_, T>> {
+            if let Some(w) = super::try_world() {
+                w.yield_point("mutex_lock");
+            }
             loop {
                 match self.0.try_lock() {
                     Ok(g) => return Ok(g),
@@ -430,6 +433,151 @@ pub mod sync {
 }
 
 // endregion: std::sync
+
+// region: std::sync::atomic (every access is a point at which the scheduler may switch)
+
+pub mod atomic {
+    use super::try_world;
+    pub use ::std::sync::atomic::{compiler_fence, fence, Ordering};
+
+    #[inline]
+    fn access() {
+        if let Some(w) = try_world() {
+            w.yield_point("atomic_access");
+        }
+    }
+
+    macro_rules! yielding_atomic {
+        ($name:ident, $real:ty, $value:ty) => {
+            #[derive(Debug, Default)]
+            pub struct $name($real);
+            impl $name {
+                pub const fn new(v: $value) -> Self {
+                    Self(<$real>::new(v))
+                }
+                pub fn load(&self, order: Ordering) -> $value {
+                    access();
+                    self.0.load(order)
+                }
+                pub fn store(&self, v: $value, order: Ordering) {
+                    access();
+                    self.0.store(v, order)
+                }
+                pub fn swap(&self, v: $value, order: Ordering) -> $value {
+                    access();
+                    self.0.swap(v, order)
+                }
+                pub fn compare_exchange(
+                    &self,
+                    current: $value,
+                    new: $value,
+                    success: Ordering,
+                    failure: Ordering,
+                ) -> Result<$value, $value> {
+                    access();
+                    self.0.compare_exchange(current, new, success, failure)
+                }
+                pub fn compare_exchange_weak(
+                    &self,
+                    current: $value,
+                    new: $value,
+                    success: Ordering,
+                    failure: Ordering,
+                ) -> Result<$value, $value> {
+                    access();
+                    self.0.compare_exchange(current, new, success, failure)
+                }
+                pub fn fetch_update<F: FnMut($value) -> Option<$value>>(
+                    &self,
+                    set_order: Ordering,
+                    fetch_order: Ordering,
+                    f: F,
+                ) -> Result<$value, $value> {
+                    access();
+                    self.0.fetch_update(set_order, fetch_order, f)
+                }
+                pub fn into_inner(self) -> $value {
+                    self.0.into_inner()
+                }
+                pub fn get_mut(&mut self) -> &mut $value {
+                    self.0.get_mut()
+                }
+            }
+            impl From<$value> for $name {
+                fn from(v: $value) -> Self {
+                    Self::new(v)
+                }
+            }
+        };
+    }
+    macro_rules! yielding_atomic_int {
+        ($name:ident, $real:ty, $value:ty) => {
+            yielding_atomic!($name, $real, $value);
+            impl $name {
+                pub fn fetch_add(&self, v: $value, order: Ordering) -> $value {
+                    access();
+                    self.0.fetch_add(v, order)
+                }
+                pub fn fetch_sub(&self, v: $value, order: Ordering) -> $value {
+                    access();
+                    self.0.fetch_sub(v, order)
+                }
+                pub fn fetch_max(&self, v: $value, order: Ordering) -> $value {
+                    access();
+                    self.0.fetch_max(v, order)
+                }
+                pub fn fetch_min(&self, v: $value, order: Ordering) -> $value {
+                    access();
+                    self.0.fetch_min(v, order)
+                }
+                pub fn fetch_and(&self, v: $value, order: Ordering) -> $value {
+                    access();
+                    self.0.fetch_and(v, order)
+                }
+                pub fn fetch_or(&self, v: $value, order: Ordering) -> $value {
+                    access();
+                    self.0.fetch_or(v, order)
+                }
+                pub fn fetch_xor(&self, v: $value, order: Ordering) -> $value {
+                    access();
+                    self.0.fetch_xor(v, order)
+                }
+            }
+        };
+    }
+    yielding_atomic!(AtomicBool, ::std::sync::atomic::AtomicBool, bool);
+    impl AtomicBool {
+        pub fn fetch_and(&self, v: bool, order: Ordering) -> bool {
+            access();
+            self.0.fetch_and(v, order)
+        }
+        pub fn fetch_or(&self, v: bool, order: Ordering) -> bool {
+            access();
+            self.0.fetch_or(v, order)
+        }
+        pub fn fetch_xor(&self, v: bool, order: Ordering) -> bool {
+            access();
+            self.0.fetch_xor(v, order)
+        }
+        pub fn fetch_nand(&self, v: bool, order: Ordering) -> bool {
+            access();
+            self.0.fetch_nand(v, order)
+        }
+    }
+    yielding_atomic_int!(AtomicU8, ::std::sync::atomic::AtomicU8, u8);
+    yielding_atomic_int!(AtomicU16, ::std::sync::atomic::AtomicU16, u16);
+    yielding_atomic_int!(AtomicU32, ::std::sync::atomic::AtomicU32, u32);
+    yielding_atomic_int!(AtomicU64, ::std::sync::atomic::AtomicU64, u64);
+    yielding_atomic_int!(AtomicUsize, ::std::sync::atomic::AtomicUsize, usize);
+    yielding_atomic_int!(AtomicI8, ::std::sync::atomic::AtomicI8, i8);
+    yielding_atomic_int!(AtomicI16, ::std::sync::atomic::AtomicI16, i16);
+    yielding_atomic_int!(AtomicI32, ::std::sync::atomic::AtomicI32, i32);
+    yielding_atomic_int!(AtomicI64, ::std::sync::atomic::AtomicI64, i64);
+    yielding_atomic_int!(AtomicIsize, ::std::sync::atomic::AtomicIsize, isize);
+    pub use ::std::sync::atomic::AtomicPtr;
+}
+
+// endregion: std::sync::atomic
 
 // region: rayon
 
@@ -910,6 +1058,9 @@ pub mod shadow {
         pub mod sync {
             pub use crate::verif_seam::sync::{Mutex, RwLock};
             pub use ::std::sync::*;
+            pub mod atomic {
+                pub use crate::verif_seam::atomic::*;
+            }
         }
     }
     pub mod rayon {
